@@ -6,7 +6,7 @@
    [impl] = Py | Cy selects the pure-Python or the compiled behaviour where they differ. *)
 From Coq Require Import ZArith List Bool Lia.
 From Verif Require Import Imp C09Bytes C09_Crc C09_Varint C09_RecordV2 C09_Legacy C09_MemRecords
-  C09_Valid VarintEnc VarintSize VarintDec C09_varint C09_split C09_v2 C09_legacy.
+  C09_Valid VarintEnc VarintSize VarintDec C09_varint C09_split C09_v2 C09_legacy C09_varint_cy C09_legacy_wrapper C09_oversize.
 Import ListNotations.
 Open Scope Z_scope.
 
@@ -34,6 +34,23 @@ Theorem c09_varint_enc_is_spec : forall v, int64 v -> VarintEnc.post v = varint_
 Proof. exact enc_py_spec. Qed.
 Print Assumptions c09_varint_enc_is_spec.
 
+(* the compiled versions (model of cutil.pyx, uint64 arithmetic) agree with the Python ones *)
+Theorem c09_varint_impls_agree : forall v, int64 v ->
+  cy_encode_varint64 v = VarintEnc.post v
+  /\ Ok (cy_size_of_varint64 v) = VarintSize.py v
+  /\ forall rest, cy_decode_varint64 (cy_encode_varint64 v ++ rest) = Some (v, rest).
+Proof. exact cy_varint_agree. Qed.
+Print Assumptions c09_varint_impls_agree.
+
+(* Outside the property (the value is used nowhere): encode_varint_py RETURNS the number of
+   bytes written only for encodings of up to 5 bytes; its general loop returns one less. *)
+Theorem c09_note_encode_return_value : forall v, int64 v -> zigzag v <= 34359738367 ->
+  VarintEnc.py v = Ok (blen (VarintEnc.post v)).
+Proof. intros v H Hs. rewrite enc_py_spec by exact H. apply enc_py_returns; assumption. Qed.
+Print Assumptions c09_note_encode_return_value.
+Example c09_note_encode_return_value_long :
+  VarintEnc.py 9223372036854775807 = Ok 9 /\ blen (VarintEnc.post 9223372036854775807) = 10.
+Proof. split; vm_compute; reflexivity. Qed.
 
 (* boundaries of the encoded length (63/64, 8191/8192, ...) *)
 Example c09_varint_boundaries :
@@ -109,6 +126,24 @@ Theorem c09_legacy_roundtrip : forall i c rs,
 Proof. exact legacy_roundtrip. Qed.
 Print Assumptions c09_legacy_roundtrip.
 
+(* compressed wrapper, after the broker assigned the wrapper's offset (that of the last inner
+   message for magic 1) and optionally LogAppendTime: the inner records come back with absolute
+   offsets / the wrapper's timestamp *)
+Theorem c09_legacy_wrapper_roundtrip :
+  forall (compress : Z -> bytes -> bytes) (decompress : Z -> bytes -> option bytes),
+  (forall c x, decompress c (compress c x) = Some x) ->
+  forall i c rs woff lat,
+    valid_lcfg c -> 1 <= lc_codec c <= 3 -> ~ (lc_codec c = 3 /\ lc_magic c = 0) ->
+    Forall valid_lrec rs ->
+    let buf := fst (lappends c [] rs) in
+    let acc := laccepted rs (snd (lappends c [] rs)) in
+    acc <> [] -> blen buf < TWO31 -> blen (compress (lc_codec c) buf) < TWO31 - 64 ->
+    valid_wstamp acc woff lat ->
+    exists w, lbuild compress c buf = Some w
+      /\ lread decompress i (lc_magic c) (lstamp woff lat w)
+         = Some (map (lexpect_wrapped c acc woff lat) acc).
+Proof. exact legacy_wrapper_roundtrip. Qed.
+Print Assumptions c09_legacy_wrapper_roundtrip.
 
 (* ---- MemoryRecords ---------------------------------------------------------------------------- *)
 (* any concatenation of well-formed batches (each with its own magic byte, any mix) followed by an
@@ -157,6 +192,22 @@ Theorem c09_size_in_bytes : forall delta off r,
 Proof. exact size_of_body_len. Qed.
 Print Assumptions c09_size_in_bytes.
 
+(* an uncompressed batch larger than batch_size holds a single record (Python predicate; for
+   the compiled predicate: every accepted record after the first has offset 0 or left room) *)
+Theorem c09_oversize_only_single : forall c rs, Forall valid_rec rs ->
+  let st := fst (appends Py c b_init rs) in
+  let acc := accepted rs (snd (appends Py c b_init rs)) in
+  c_batch_size c < size Py st -> (List.length acc <= 1)%nat.
+Proof. exact py_oversize_single. Qed.
+Print Assumptions c09_oversize_only_single.
+
+Theorem c09_oversize_only_single_compiled : forall c r0 rs, Forall valid_rec (r0 :: rs) ->
+  Forall (fun r => r_offset r <> 0) rs ->
+  let st := fst (appends Cy c b_init (r0 :: rs)) in
+  let acc := accepted (r0 :: rs) (snd (appends Cy c b_init (r0 :: rs))) in
+  c_batch_size c <= size Cy st -> (List.length acc <= 1)%nat.
+Proof. exact cy_oversize_single. Qed.
+Print Assumptions c09_oversize_only_single_compiled.
 
 (* ---- CRC ---------------------------------------------------------------------------------------- *)
 Example c09_crc32c_check_value : crc32c [49; 50; 51; 52; 53; 54; 55; 56; 57] = 3808858755.  (* 0xE3069283 *)
